@@ -336,11 +336,22 @@ def c03(res, rng, tier):
             dlines.append("dec %s %s 0 %s" % (pd, su, hexb)); dmeta.append((i, pd))
     dimpl = C.implrun(dlines)
     dmodel = C.modelrun(dlines)
+    # the round-trip theorem (Proofs/RoundTrip.v: encode_decode) predicts norm c v for every value
+    # in its fragment; the prediction itself is checked against the implementation here
+    pred = C.modelrun(["norm " + l.split(" ", 4)[1] + " " + l.split(" ", 4)[2] + " " + l.split(" ", 4)[4] for l in lines])
+    in_fragment = 0
     nontriv = 0
     for j, do in enumerate(dimpl):
         i, pd = dmeta[j]
         v, can, p, su = meta[i]
         ps = parts(do)
+        if pred[i] != "NA":
+            in_fragment += 1
+            if ps[0] != pred[i]:
+                res.violation("theorem encode_decode predicts %s, the implementation's Decode(Encode(v)) gives %s (protocol %d StrictUnicode=%s PyDict=%s)"
+                              % (pred[i][:200], ps[0][:200], p, su, pd),
+                              {"kind": "correspondence", "theorem": "RoundTrip.encode_decode / Norm.norm", "case": lines[i][:800],
+                               "pickle_hex": dlines[j].split()[-1][:2000], "predicted": pred[i][:600], "impl": do[:600]})
         try:
             want = nan_class(E.canon_dump(E.norm(v, pd == "1", su == "1", p)), p)
         except E.Unencodable:
@@ -371,5 +382,6 @@ def c03(res, rng, tier):
         "rule": "canonical values (None, bool, int64, *big.Int, float64 incl. NaN/-0/Inf/denormals, string, ByteString, Bytes, []byte, []any, Tuple, map incl. NaN/-0/big keys, Dict incl. tuple keys, Class, Call, Ref; gate matrix + random trees to depth 4) and non-canonical relatives (narrow/unsigned ints, float32, typed slices, arrays, structs, zoo types, pointers, nil) x protocols 0..5 x StrictUnicode x PyDict; expected value = the documented normal form computed independently in Python; NaNs are one class at protocol 0; non-trivial = successful round trips compared",
         "programs": len(lines) + len(dlines), "disagreements_checked": len(lines) + len(dlines),
         "canonical_values": len(canon_vals), "non_canonical_values": len(vals) - len(canon_vals),
+        "round_trips_inside_theorem_fragment": in_fragment, "round_trips_total": len(dlines),
         "value_kinds": kinds_hist([v for v, _ in vals])})
     res.samples = [{"case": lines[i][:160], "impl": impl[i][:120]} for i in range(0, len(lines), max(1, len(lines) // 6))]
